@@ -1134,7 +1134,8 @@ Proof.
   { rewrite EL. apply gdn_snoc; [rewrite <- EL; exact G | reflexivity]. }
   assert (ED : code_text f ++ [DQ] = esc (x ++ [BS]) ++ DQ :: (s' ++ [DQ])).
   { rewrite ET, esc_app, <- !app_assoc. reflexivity. }
-  cbn [length params next_param]. change (DQ =? DQ) with true. cbv iota.
+  cbn [length]. generalize (length (code_text f ++ [DQ])) as fuel. intros fuel.
+  cbn [params next_param]. change (DQ =? DQ) with true. cbv iota.
   rewrite ED, string_body_esc_gen.
   destruct (s' ++ [DQ]) as [|d tail'] eqn:Etail; [destruct s'; discriminate|].
   destruct (is_ws d) eqn:Wd; [|reflexivity].
@@ -1147,7 +1148,8 @@ Proof.
     cbn [existsb] in X. rewrite Dd in X. exact X. }
   destruct (strip_left_gdn tail' G2 Et) as (c' & r' & A & B & C & D & F' & L).
   cbn [strip_left]. rewrite Wd, A.
-  rewrite (params_gdn (S (length r')) _ c' r' ltac:(lia) B C D F'). reflexivity.
+  pose proof (params_gdn (S (length r')) fuel c' r' (Nat.lt_succ_diag_r _) B C D F') as PG.
+  rewrite PG. reflexivity.
 Qed.
 
 Lemma has_dq_false f : has_dq f = false <-> Forall (fun tv => no_dq (snd tv) = true) (leaves f).
